@@ -33,12 +33,14 @@
        probe entries a_i = 256^i, b_j = 256^(|a| j) (see `probe_a`, `probe_b`) -- for
        einsum they are now subsumed by (0) but they are independent evidence (no proof
        chain, just evaluation) and they are what covers tensordot;
-   (4) one `_refuted` theorem: the faithful model of the tensordot parser is wrong
-       for a negative axis of the second operand (a finding, replayed on the code).
+   (4) implicit output / blanks on the two-operand path and negative tensordot axes
+       (C11_einsum2_implicit_output_correct, C11_einsum2_blanks_ignored,
+       C11_tensordot_signed_axes_correct): the model follows /repo after the fixes 23dce6e and
+       eebb3ef; the former `_refuted` theorem about negative axes is replaced by these.
    What the theorems do NOT cover: that the model is the code (executed correspondence,
    harness/props/c11.py), that numpy's kernels behave as Model/ArrayOps.v says (compared
-   with numpy on integer arrays every run), equations with implicit output or blanks in
-   the two-operand form and negative tensordot axes (findings), shapes that are not
+   with numpy on integer arrays every run), the tensordot() wrapper's
+   normalisation of `axes` (oracle only), shapes that are not
    consistent (numpy-style broadcasting of 1 against n). *)
 From Coq Require Import Lia ZArith List Sorted.
 From Ctg Require Import Base BMM ArrayOps BaseFacts BMMFacts.
@@ -119,6 +121,48 @@ Theorem C11_tensordot_int_correct : forall n a b,
   Some (tensordot_ref (seq (length (tshape a) - n) n) (seq 0 n) a b).
 Proof. exact td_tensordot_int_correct. Qed.
 Print Assumptions C11_tensordot_int_correct.
+
+(* two-operand equations in the implicit form 'ab,bc' (the output is the labels occurring exactly
+   once in both terms together, in increasing order) and with blanks anywhere: since /repo 23dce6e
+   _parse_eq_to_batch_matmul sanitises its equation like the one-operand path *)
+Theorem C11_einsum2_implicit_output_correct : forall (sz : nat -> nat) ta tb a b,
+  tshape a = map sz ta -> tshape b = map sz tb -> wf_tensor a = true -> wf_tensor b = true ->
+  Forall (fun c => 4 <= c) ta -> Forall (fun c => 4 <= c) tb ->
+  einsum2 (nb_lhs ta tb) a b = Some (einsum_ref [ta; tb] (im_implicit_out (ta ++ tb)) [a; b]).
+Proof. exact nb_einsum2_implicit. Qed.
+Print Assumptions C11_einsum2_implicit_output_correct.
+
+Theorem C11_einsum2_blanks_ignored : forall e a b, einsum2 e a b = einsum2 (remove_all SPACE e) a b.
+Proof. exact nb_einsum2_blanks. Qed.
+Print Assumptions C11_einsum2_blanks_ignored.
+
+Theorem C11_einsum2_blanks_explicit_correct : forall (sz : nat -> nat) e ta tb out a b,
+  remove_all SPACE e = eq2 ta tb out ->
+  tshape a = map sz ta -> tshape b = map sz tb -> wf_tensor a = true -> wf_tensor b = true ->
+  NoDup out -> incl out (ta ++ tb) ->
+  Forall (fun c => 4 <= c) ta -> Forall (fun c => 4 <= c) tb -> Forall (fun c => 4 <= c) out ->
+  einsum2 e a b = Some (einsum_ref [ta; tb] out [a; b]).
+Proof. exact nb_einsum2_blanks_explicit. Qed.
+Print Assumptions C11_einsum2_blanks_explicit_correct.
+
+(* tensordot with negative axes (since /repo eebb3ef): every axes pair with entries in
+   [-ndim, ndim) is first normalised (nb_axes: ax + ndim if ax < 0) and then agrees with the definition *)
+Theorem C11_tensordot_negative_axes_normalised : forall xa xb a b,
+  nb_in_range (length (tshape a)) xa -> nb_in_range (length (tshape b)) xb ->
+  tensordot (AxPair xa xb) a b =
+  tensordot (AxPair (zs (nb_axes (length (tshape a)) xa)) (zs (nb_axes (length (tshape b)) xb))) a b.
+Proof. exact nb_tensordot_normalises. Qed.
+Print Assumptions C11_tensordot_negative_axes_normalised.
+
+Theorem C11_tensordot_signed_axes_correct : forall xa xb a b,
+  let ra := length (tshape a) in let rb := length (tshape b) in
+  nb_in_range ra xa -> nb_in_range rb xb ->
+  NoDup (nb_axes ra xa) -> NoDup (nb_axes rb xb) -> length xa = length xb ->
+  dims_at (tshape a) (nb_axes ra xa) = dims_at (tshape b) (nb_axes rb xb) ->
+  wf_tensor a = true -> wf_tensor b = true ->
+  tensordot (AxPair xa xb) a b = Some (tensordot_ref (nb_axes ra xa) (nb_axes rb xb) a b).
+Proof. exact nb_tensordot_signed_correct. Qed.
+Print Assumptions C11_tensordot_signed_axes_correct.
 
 (* the equation the tensordot parser builds, and its reference semantics *)
 Theorem C11_tensordot_equation : forall sa sb xa xb,
@@ -412,17 +456,7 @@ Theorem C11_tensordot_int_bounded_rank3 : forall sa sb n,
 Proof. exact tensordot_int_bounded_3. Qed.
 Print Assumptions C11_tensordot_int_bounded_rank3.
 
-(* ------------------------------------------------------------------ *)
-(* (4) REFUTED: negative axes of the second operand.  numpy.tensordot(a, b, ([0],[-1])) on
-   rank-1 arrays contracts axis 0 with axis 0; the model of _parse_tensordot_axes_to_matmul
-   (like the code) tests `axb not in axes_b` with axb >= 0 and contracts nothing. *)
-Theorem C11_tensordot_negative_axes_refuted :
-  exists a b : tensor,
-    wf_tensor a = true /\ wf_tensor b = true /\
-    tensordot (AxPair [0%Z] [(-1)%Z]) a b <> Some (tensordot_ref [0] [0] a b) /\
-    tensordot (AxPair [0%Z] [0%Z]) a b = Some (tensordot_ref [0] [0] a b).
-Proof. exact tensordot_negative_axes_refuted. Qed.
-Print Assumptions C11_tensordot_negative_axes_refuted.
+
 
 (* ------------------------------------------------------------------ *)
 (* non-vacuity: the hypotheses above are met by concrete, non-trivial instances *)
@@ -487,3 +521,15 @@ Proof.
   split; [intros x Hx; cbn in Hx |- *; intuition|].
   vm_compute. repeat split.
 Qed.
+
+(* the former counterexample of the negative-axis defect now agrees with the definition;
+   'ab,bc' and ' ab , bc -> ac ' are evaluated *)
+Example C11_ex_fixed_forms :
+  (let a : tensor := ([2], [1%Z; 2%Z]) in let b : tensor := ([2], [3%Z; 4%Z]) in
+   tensordot (AxPair [0%Z] [(-1)%Z]) a b = Some (tensordot_ref [0] [0] a b) /\
+   tensordot (AxPair [0%Z] [(-1)%Z]) a b = Some ([], [11%Z])) /\
+  (let a : tensor := ([2;3], map Z.of_nat (seq 1 6)) in let b : tensor := ([3;2], map Z.of_nat (seq 1 6)) in
+   einsum2 (nb_lhs [4;5] [5;6]) a b = Some ([2;2], [22; 28; 49; 64]%Z) /\
+   im_implicit_out ([4;5] ++ [5;6]) = [4;6] /\
+   einsum2 [2;4;5;2;0;2;5;6;2;1;2;4;6;2] a b = Some ([2;2], [22; 28; 49; 64]%Z)).
+Proof. vm_compute. repeat split. Qed.
